@@ -164,8 +164,9 @@ def run(ctx):
             ok = len(a) == 4 and a[1] == D and a[3] == c.term and icvw[0].seq > c.seq and \
                 strip_ids(a[2]) == strip_ids(('bin', '-', LEN(D), LEN(c.term)))
             fmt = a[0] if len(a) == 4 else NONE
-            ok = ok and fmt[0] == 'fstr' and [x for x in fmt[1] if x[0] == 'const'] == [const('>'), const('s')] \
-                and [strip_ids(x[1]) for x in fmt[1] if x[0] == 'fmt'] == [strip_ids(LEN(c.term))]
+            # '>{0}s'.format(len(mac)) - an f-string is read as this form (sa.desugar)
+            ok = ok and tq.is_call(fmt, 'method.format') and tq.recv(fmt) == const('>{0}s') \
+                and [strip_ids(x) for x in tq.args(fmt).values()] == [strip_ids(LEN(c.term))]
             ok = ok and strip_ids(icvw[0].pc) == strip_ids(has_keys)
         ctx.check(ok, 'E1', 'sender: the MAC is written over the last len(MAC) octets of the message', key=('E1', 'icv-write'),
                   site=ctx.site(tb, c.node))
